@@ -51,7 +51,16 @@ PRIMES = [2, 3, 5, 7, 11, 13, 17, 19, 23, 29, 31, 37, 41, 43, 47, 53, 59, 61, 67
 
 def rand_leaf(rng, i, env):
     v = PRIMES[i % len(PRIMES)]
-    k = rng.randrange(6)
+    k = rng.randrange(7)
+    if k == 6:
+        # names that mean something to other notations (HTML entities, regex classes) - here they are plain cells and variables
+        if rng.random() < 0.5:
+            label = rng.choice(['GT', 'LT', 'AMP', 'gt', 'Lt', 'NOT', 'OR']) + str(rng.randint(1, 9))
+            env['cellsets'].append({'key': F.cps(label.upper()), 'vals': [enc(v)]})
+            return F.cell(label)
+        name = rng.choice(['lt', 'gt', 'amp', 'quot', 'copy', 'nbsp', 'le', 'ge', 'ne', 'not_', 'and_'])
+        env['vars'][name] = enc(v)
+        return F.var(name)
     if k == 0:
         return F.num(str(v))
     if k == 1:
@@ -281,6 +290,28 @@ def main(tier, replay=None):
         v = core.validate_obs(run, 'Trace_C04', part, 'p%d' % (k // CH), consts)
         core.tally(run, part, v, 'c04', key=lambda o: o['in'],
                    nontrivial=lambda o: sum(o['in'].count(x) for x in '+-*/=<>&') >= 2)
+    # literals of 16-25 digits under - + and the comparisons, bare and parenthesised: the exact value of the tree (Trace_Big)
+    from .c06 import run_big, signed
+    big = []
+    bp = lib.Parser()
+    for _ in range(200 if quick else 6000):
+        a = rng.randint(10 ** 15, 10 ** 25)
+        b = rng.choice([a - 1, a + 1, a, a - rng.randint(1, 1000), rng.randint(10 ** 15, 10 ** 25)])
+        op = rng.choice(['-', '+', '-', '>', '=', '<', '>=', '<>'])
+        if op in '+-':
+            big.append(run_big(lib, op, a, b, False, False, 'lit'))
+            continue
+        for text in ('%d%s%d' % (a, op, b), '(%d)%s(%d)' % (a, op, b)):
+            r = bp.parse(text)
+            truth = 'TRUE' if r['error'] is None and r['result'] is True else 'FALSE' if r['error'] is None and r['result'] is False else 'other'
+            big.append({'kind': 'bigcmp', 'op': op, 'a': signed(a), 'b': signed(b), 'k': 0, 'truth': truth, 'formula': text,
+                        'out': {'int': False, 'neg': False, 'ds': [48]}, 'out2': {'int': False, 'neg': False, 'ds': [48]},
+                        'in': {'op': op, 'a': str(a), 'b': str(b), 'formula': text}})
+    for n, o in enumerate(big, 1):
+        o['id'] = n
+    v = core.validate_obs(run, 'Trace_Big', big, 'big')
+    core.tally(run, big, v, 'c04-big', key=lambda o: o['formula'] + json.dumps(o['in'], sort_keys=True))
+    run.extra['long_literal_trees'] = len(big)
     run.exhaustive = True
     run.samples = [{'formulas': o['formulas'], 'outs': [x['res'] for x in o['outs']]} for o in (obs[100], obs[-1])]
     return run.finish()
